@@ -269,10 +269,16 @@ Section Safe.
       destruct (sink_token gm text k len (sk st1)) as [s|] eqn:T; [|discriminate].
       injection H as H; subst. apply safe_sink; [eapply bump_n_safe; eauto|eapply sink_token_bnd; eauto].
     - unfold split_remap in H. destruct parts as [|p ps]; [injection H as H; subst; exact S|].
-      destruct (emit_parts gm text (p :: ps) 0 (sk st)) as [[e s]|] eqn:E; [|discriminate].
-      destruct (negb (e =? ll (p_tok (b0 st)))); [discriminate|].
-      eapply advance_safe; [|exact H]. apply safe_sink; [exact S|].
-      eapply emit_parts_bnd; [apply S|exact E].
+      destruct (eat_trivia gm text st) as [st1|] eqn:Et; [|discriminate].
+      assert (S1 : SafeInv st1).
+      { pose proof (eat_trivia_pos _ _ (sf_pos _ S) Et) as B.
+        unfold eat_trivia in Et. destruct (emit_trivia gm text (p_triv (b0 st)) (sk st)); [|discriminate].
+        injection Et as Et; subst st1. destruct S as [P T0 T1 T2 T3 K0 K1 K2 K3 L].
+        constructor; cbn [sk b0 b1 b2 b3 lx p_triv p_tok] in *; try assumption. constructor. }
+      destruct (emit_parts gm text (p :: ps) 0 (sk st1)) as [[e s]|] eqn:E; [|discriminate].
+      destruct (negb (e =? ll (p_tok (b0 st1)))); [discriminate|].
+      eapply advance_safe; [|exact H]. apply safe_sink; [exact S1|].
+      eapply emit_parts_bnd; [apply S1|exact E].
     - injection H as H; subst. apply safe_sink; [exact S|]. cbn. apply S.
     - injection H as H; subst. apply safe_sink; [exact S|]. cbn. apply S.
     - injection H as H; subst. apply safe_sink; [exact S|]. cbn. apply S.
